@@ -72,6 +72,7 @@ type Profile struct {
 	SrcClash   bool   // source directory differs from the package name and a dependency shares the source package's name
 	Cluster    bool   // three same-named packages reached only through one func type of a hub package's interface
 	CRLF       bool // every file of the source package uses CRLF line endings
+	NoSync     bool // no package of the tree is named sync (so that a parameter may be)
 	Regen      bool // regeneration corpus: while KF-regeneration-alias-feedback is open, no parameter name (user-written
 	// or type-derived) may equal the name of a dependency package (such a parameter is renamed in the first run
 	// only when the package is re-aliased later, and the alias is then read back from the generated file)
@@ -340,6 +341,9 @@ func (b *builder) makeDeps() {
 				name = b.pick([]string{"one", "two", "util", "api", "foo", "bar", "sync", "sync", "json"}) // not the de-capitalised form of any type name
 			}
 		}
+		if b.prof.NoSync && name == "sync" {
+			name = "util"
+		}
 		var dir string
 		for try := 0; ; try++ {
 			forms := dirForms(name)
@@ -449,6 +453,9 @@ func (b *builder) makeDeps() {
 		d := *stdDeps[i]
 		if b.prof.Regen && !b.hz.RegenAliasFeedback && d.Path == "html/template" {
 			continue // text/template + html/template: an unnamed template.Template parameter is the open finding's shape
+		}
+		if b.prof.NoSync && d.Path == "sync" {
+			continue
 		}
 		if b.chance(b.prof.Aliases / 2) {
 			d.SrcAlias = b.pick([]string{"std" + d.Name, d.Name + "pkg", "x"})
